@@ -63,6 +63,8 @@ func init() {
 		"bytes.Equal/HasPrefix trusted; walker table frozen (12 walkers)", "DESIGN.md §3 R-KEYMATCH, R-PREFIX, R-PREORDER; §4 C02",
 		func(c *Ctx) {
 			c.load("pkg/trie/inmemory", "pkg/trie/node")
+			c.ruleMergeOnce()
+			c.min("R-MERGEONCE", 1)
 			c.ruleKeyMatch(trieWalkers)
 			c.min("R-KEYMATCH/K2", 8)
 			c.min("R-KEYMATCH/K1", 5)
